@@ -75,7 +75,12 @@ pub fn run(case: &Value) -> Value {
                     "requires" => {
                         let mut r = Require::new(string_of(&c["n"]));
                         // the metadata either assigned directly or through Require::metadata (any Serialize value)
-                        if case["id"].as_u64().unwrap_or(0) % 2 == 1 {
+                        // earlier Require::metadata calls on the same value: the last call decides (the table is replaced)
+                        let earlier = c["m0"].as_array().cloned().unwrap_or_default();
+                        for m0 in &earlier {
+                            r.metadata(to_table(m0)).expect("a table serialises as a table");
+                        }
+                        if !earlier.is_empty() || case["id"].as_u64().unwrap_or(0) % 2 == 1 {
                             r.metadata(to_table(&c["m"])).expect("a table serialises as a table");
                         } else {
                             r.metadata = to_table(&c["m"]);
